@@ -185,6 +185,20 @@ theorem offset_utc (s : Str) (t : DT) (delta : Int)
   | none => right; rfl
   | some u => left; exact ⟨u, rfl, fromSecs_spec _ u hf⟩
 
+/-- **A datetime carrying a UTC offset is stored as the same instant**: what is written is the canonical text of a
+    calendar time `u` whose second count is the assigned time's minus the offset, with every field in range, for every
+    time and every offset; the only other outcome is the refusal of an instant outside years 1..9999 -/
+theorem writeAware_instant (t : DT) (offMin : Int) (s : Str) (h : writeAware t offMin = some s) :
+    ∃ u, s = fmt u ∧ toSecs u = toSecs t - offMin * 60 ∧ 1 ≤ u.y ∧ u.y ≤ 9999 ∧ 1 ≤ u.mo ∧ u.mo ≤ 12 ∧ 1 ≤ u.d ∧ u.d ≤ 31 ∧
+      u.h < 24 ∧ u.mi < 60 ∧ u.s < 60 := by
+  simp only [writeAware, Option.map_eq_some_iff] at h
+  obtain ⟨u, hu, rfl⟩ := h
+  exact ⟨u, rfl, fromSecs_spec _ u hu⟩
+
+example : writeAware ⟨2020, 1, 1, 12, 0, 5⟩ 120 = some "2020-01-01T10:00:05Z".toList := by decide
+example : writeAware ⟨2020, 1, 1, 0, 30, 0⟩ 60 = some "2019-12-31T23:30:00Z".toList := by decide
+example : writeAware ⟨1, 1, 1, 0, 0, 0⟩ 60 = none := by decide
+
 /-- revision: stored text of a positive integer reads back as that integer; anything else as 0 -/
 theorem revision_examples : revisionOf (some "42".toList) = 42 ∧ revisionOf (some "-3".toList) = 0
     ∧ revisionOf (some "x".toList) = 0 ∧ revisionOf none = 0 ∧ revisionOf (some [] ) = 0 := by decide
